@@ -436,9 +436,16 @@ def translate():
     L.append("/-- the named unions of `mjtState` (signatures of particular interest) -/")
     L.append("def stateNamedSigs : List (String × Nat) := [%s]" % ", ".join('("%s", %d)' % (n, v) for n, v in named))
     L.append("")
+    import hashlib
+    tid = hashlib.sha256("\n".join(L).encode()).hexdigest()[:24]
+    L.append("/-- fingerprint of this generated table (printed by the driver so that the check can tell")
+    L.append("    which table a compiled driver contains) -/")
+    L.append('def stateTableId : String := "%s"' % tid)
+    L.append("")
     L.append("end MjProof.Gen")
     lean = "\n".join(L) + "\n"
     info = {
+        "table_id": tid,
         "repo": REPO, "enum_file": enum_file, "nstate": nstate,
         "enum": [{"name": n, "bit": b} for n, b in elems],
         "elems": rows, "sizes": used_sizes, "fields": used_fields,
